@@ -6,6 +6,7 @@ CONSTANTS
   SendCtxMayEnd = TRUE
   ListenerLock = TRUE
   Eager = FALSE
+  MaxCancels = 9
 VIEW ViewNoHist
 INVARIANTS ClosedOnlyWhenEmpty LockDiscipline AtMostOnce PerSenderFIFO LiveGetsAll
 PROPERTIES NoSendOnClosed CancelCloses SenderNotStuck
